@@ -155,7 +155,7 @@ class BeltStore(Store):
 
 
 
-    def _do_reserve_put(self,event):
+    def _do_reserve_put(self,event, dry_run=False):
         """
         Attempts to reserve space in the store for an incoming item.
         This method processes a `reserve_put` request by checking if the store has
@@ -202,6 +202,8 @@ class BeltStore(Store):
                         #print(f"At time={self.env.now:.2f}, Process {self.env.active_process} "
                         # f"reserved space. Total reservations: {len(self.reservations_put)}")
                         else:
+                            if dry_run:
+                                return True
                             self.reservations_put.append(event)
                             event.succeed()
                             print(f"T={self.env.now:.2f}: yielded reserve_put when noaccumulation_mode_on is {self.noaccumulation_mode_on}")
@@ -210,6 +212,8 @@ class BeltStore(Store):
             #if self.accumulation_mode_indicator==False or (self.accumulation_mode_indicator==True and len(self.ready_items)==0):
                 if len(self.reservations_put) + len(self.items) +len(self.ready_items) < self.capacity and (self.accumulation_mode_indicator==True or len(self.ready_items)==0):
 
+                    if dry_run:
+                        return True
                     self.reservations_put.append(event)  # Add reservation
                     event.succeed()
                     print(f"T={self.env.now:.2f}: yielded reserve_put when {self.noaccumulation_mode_on}")
@@ -223,6 +227,10 @@ class BeltStore(Store):
                 #print(f"At {self.env.now:.2f}, Reservation failed for {self.env.active_process} "
                 #     f"on {self}. Store is full.")
     
+    def can_reserve_put(self):
+        """True iff a reserve_put() issued now would be granted at once (the admission test, without side effects)."""
+        return bool(self._do_reserve_put(None, dry_run=True))
+
     def reserve_put_cancel(self, put_event_to_cancel):
       """
         Cancel a previously made `reserve_put` request.
